@@ -128,4 +128,44 @@ func init() {
 	for p := range fsRuleSets {
 		checks[p] = checkFs(p)
 	}
+	checks["C07"] = func(p *Program, r *Report) {
+		checkFsSubset(p, r, []string{"COMPACT-PUBLISHES", "LIST-CONTENT", "ORDER-DELETE-LAST"}, map[string]int{"COMPACT-PUBLISHES": 2, "LIST-CONTENT": 4})
+		checkCompactionTables(p, r, false, true)
+		r.Engines = []string{"pathsim", "dtable", "fsproto"}
+		r.Explanation = "Decision table of the compaction rewrite loop extracted by path-sensitive simulation: a ref (or log) record obtained from the raw merged view of exactly stack[first..last] is either handed unmodified to AddRef/AddLog or dropped, and DROP implies (first = 0 and IsDeletion) [or expiry, see C13]; output limits are (min of first, max of last); the compaction's merged view never suppresses deletions; the committed list keeps exactly the tables outside [first,last] plus the new table; a finished merge is published. These are necessary conditions of view preservation, not the equality of views itself."
+		r.NotDecided = []string{"equality of the reader's view before/after for given data (needs the arithmetic of C01-C03)", "log deletions surviving the writer's message normalisation (decided under C01 deletion preservation)"}
+		r.Assumptions = []string{"IsDeletion is a pure function of the record (checked by the effects engine when built)", "iterator Next fills the record passed to it and nothing else"}
+	}
+	checks["C13"] = func(p *Program, r *Report) {
+		checkFsSubset(p, r, []string{"COMPACT-PUBLISHES"}, map[string]int{"COMPACT-PUBLISHES": 2})
+		checkCompactionTables(p, r, true, false)
+		r.Engines = []string{"pathsim", "dtable", "fsproto"}
+		r.Explanation = "Exact decision table of the expiry filter: over the atoms cfg=nil, cfg.Time?0, rec.Time?cfg.Time, cfg.Max?0, rec.idx?cfg.Max, cfg.Min?0, rec.idx?cfg.Min (all valuations consistent with the order theory are enumerated), KEEP implies not expired and DROP implies expired or a bottom tombstone, with E = cfg!=nil and ((Time>0 and rec.Time<Time) or (Max!=0 and idx>Max) or (Min!=0 and idx<Min)); the record written is the record read; refs are dropped only as bottom tombstones, never by expiry; a compaction that merged reports success only after publishing the new list."
+		r.NotDecided = []string{"byte-for-byte preservation of kept entries (C01)"}
+		r.Assumptions = []string{"iterator Next fills the record passed to it and nothing else"}
+	}
+}
+
+// checkFsSubset copies the obligations of some fsproto rules into a report.
+func checkFsSubset(p *Program, r *Report, rules []string, floors map[string]int) {
+	res := fsAnalyse(p)
+	want := map[string]bool{}
+	for _, ru := range rules {
+		want[ru] = true
+	}
+	for k, o := range res.rules.obl {
+		ru := res.rules.rule[k]
+		if !want[ru] {
+			continue
+		}
+		if o.OK {
+			r.ok(ru, strings.TrimPrefix(k, ru+" / "), o.Note)
+		} else {
+			v := res.rules.viol[k]
+			r.violate(ru, strings.TrimPrefix(k, ru+" / "), v.Where, v.Message, v.Witness)
+		}
+	}
+	for ru, n := range floors {
+		r.floor(ru, len(res.rules.seen[ru]), n, "operations in which rule "+ru+" was evaluated")
+	}
 }
